@@ -69,6 +69,9 @@ func (b *body) Read(p []byte) (int, error) {
 		w.done(seq, "httpread", b.url, 0, io.ErrUnexpectedEOF, flt, fi, true)
 		return 0, io.ErrUnexpectedEOF
 	}
+	if (flt != nil && flt.Kind == "stall" || w.spec.HeldOpen) && len(p) > 0 && b.off >= len(b.data) {
+		stalled(seq, "httpread", b.url, flt, fi)
+	}
 	if b.off >= len(b.data) {
 		w.done(seq, "httpread", b.url, 0, io.EOF, flt, fi, false)
 		return 0, io.EOF
